@@ -1110,6 +1110,7 @@ impl UserRx {
             shared,
             ooq,
             max_incoming_payload,
+            window_granularity,
             last_remaining_rx_window,
         } = self;
         {
@@ -1133,6 +1134,7 @@ impl UserRx {
         }
         ooq.verif_fp(out);
         out.push(max_incoming_payload.get() as u64);
+        out.push(*window_granularity as u64);
         out.push(*last_remaining_rx_window as u64);
     }
 
